@@ -3,6 +3,7 @@ package main
 import (
 	"go/ast"
 	"go/types"
+	"golang.org/x/tools/go/types/typeutil"
 	"strings"
 )
 
@@ -75,6 +76,53 @@ func ruleNoWallclock(c *RC) *RuleResult {
 		if !bad {
 			r.ok(fn.Name + ": no reference to time.Now/Since/Until/After/AfterFunc/Tick/NewTimer/NewTicker/Sleep")
 		}
+	}
+	// ... and never calls (statically) a function of another package of the module that reaches one: the only way time
+	// may come in is the injected Timer interface
+	wall := map[*FuncInfo]string{}
+	for _, fn := range c.Prog.sortedFuncs() {
+		ast.Inspect(fn.Decl, func(n ast.Node) bool {
+			if id, ok := n.(*ast.Ident); ok {
+				if f, ok := fn.Pkg.TypesInfo.Uses[id].(*types.Func); ok && f.Pkg() != nil && f.Pkg().Path() == "time" && f.Type().(*types.Signature).Recv() == nil && wallclock["time."+f.Name()] {
+					wall[fn] = "time." + f.Name()
+				}
+			}
+			return true
+		})
+	}
+	for changed := true; changed; {
+		changed = false
+		for _, fn := range c.Prog.sortedFuncs() {
+			if wall[fn] != "" {
+				continue
+			}
+			info := fn.Pkg.TypesInfo
+			ast.Inspect(fn.Decl.Body, func(n ast.Node) bool {
+				if call, ok := n.(*ast.CallExpr); ok {
+					if fo, ok := typeutil.Callee(info, call).(*types.Func); ok {
+						if t := c.Prog.Funcs[fo.Origin()]; t != nil && wall[t] != "" && wall[fn] == "" {
+							wall[fn] = t.Name + " -> " + wall[t]
+							changed = true
+						}
+					}
+				}
+				return true
+			})
+		}
+	}
+	for _, fn := range c.Prog.dbftFuncs() {
+		info := fn.Pkg.TypesInfo
+		ast.Inspect(fn.Decl.Body, func(n ast.Node) bool {
+			if call, ok := n.(*ast.CallExpr); ok {
+				if fo, ok := typeutil.Callee(info, call).(*types.Func); ok {
+					if t := c.Prog.Funcs[fo.Origin()]; t != nil && t.Pkg != fn.Pkg && wall[t] != "" {
+						r.Sites++
+						r.fail(fn.Name+"/via:"+t.Name, c.Prog.Pos(call), fn.Name+" calls "+t.Name+" ("+t.Pkg.PkgPath+"), which reads the machine's clock ("+wall[t]+"): time enters the state machine beside the injected timer")
+					}
+				}
+			}
+			return true
+		})
 	}
 	// package-level initialisers
 	for _, f := range pkg.Syntax {
